@@ -63,7 +63,7 @@ Subtotal(n, q) == Agg(SubtotalName(n), q)
 \* one of the ranges (which one when several differ is not fixed by the
 \* statement: position-major or argument-major).
 NK(v) == IF IsNum(v) THEN v[2] ELSE 0
-SPK(q, t) == SumTo([i \in DOMAIN q |-> NK(q[i]) * NK(t[i])], Len(q))
+SPK(q, t) == LET f == [i \in DOMAIN q |-> NK(q[i]) * NK(t[i])] IN SumTo(f, Len(q))
 SumProduct(q, t) ==
   IF HasErr(q) \/ HasErr(t) THEN ErrSet(q) \cup ErrSet(t)
   ELSE {R(SPK(q, t), Scale * Scale)}
@@ -74,10 +74,10 @@ SumProduct(q, t) ==
 Shapes(n) == {hw \in (1..n) \X (1..n) : hw[1] * hw[2] = n}
 Matrix(q, h, w) == [r \in 1..h |-> [c \in 1..w |-> q[(r - 1) * w + c]]]
 Flatten(M, h, w) == [i \in 1..(h * w) |-> M[((i - 1) \div w) + 1][((i - 1) % w) + 1]]
-\* the transposed rectangle read row-major = the rectangle read column-major
+\* the transposed rectangle read row-major = the rectangle read column-major:
+\* cell i of the w x h result is M[((i-1) % h) + 1][((i-1) \div h) + 1]
 Transposed(q, h, w) ==
-  LET M == Matrix(q, h, w)
-  IN  [i \in 1..(h * w) |-> M[((i - 1) % h) + 1][((i - 1) \div h) + 1]]
+  [i \in 1..(h * w) |-> q[((i - 1) % h) * w + ((i - 1) \div h) + 1]]
 
 Swap(q, i) == [q EXCEPT ![i] = q[i + 1], ![i + 1] = q[i]]
 Rot(q) == IF q = <<>> THEN q ELSE Tail(q) \o <<Head(q)>>
@@ -95,6 +95,10 @@ RMin2(x, y) == IF RLe(x, y) THEN x ELSE y
 RMax2(x, y) == IF RLe(x, y) THEN y ELSE x
 
 OneErrKind(q) == Cardinality(ErrSet(q)) <= 1
+
+\* where a range is cut in two: everywhere for short ranges, at the ends and
+\* in the middle for long ones (keeps the simulation of 25-cell ranges cheap)
+Cuts(n) == IF n <= 6 THEN 0..n ELSE {0, 1, n \div 2, n - 1, n}
 
 --------------------------------------------------------------------------
 (* the enumerator machine *)
@@ -137,22 +141,26 @@ SumStep ==
 \* changes nothing; with several different error values only *which* error
 \* comes first may change.
 PermInvariant ==
-  \A i \in 1..(Len(s) - 1) : \A fn \in Fns :
-     LET t == Swap(s, i)
-     IN  IF OneErrKind(s) THEN Agg(fn, t) = Agg(fn, s)
-         ELSE /\ FirstErr(t) \in Agg(fn, t)
-              /\ FirstErr(t) \in ErrSet(s)
+  LET base == [fn \in Fns |-> Agg(fn, s)]  one == OneErrKind(s)  errs == ErrSet(s)
+  IN  \A i \in 1..(Len(s) - 1) :
+         LET t == Swap(s, i)
+         IN  \A fn \in Fns :
+                IF one THEN Agg(fn, t) = base[fn]
+                ELSE /\ FirstErr(t) \in Agg(fn, t)
+                     /\ FirstErr(t) \in errs
 
 \* Reshaping keeps the row-major sequence; transposing is a permutation.
 ReshapeInvariant ==
   \A hw \in Shapes(Len(s)) :
-     /\ Flatten(Matrix(s, hw[1], hw[2]), hw[1], hw[2]) = s
-     /\ OneErrKind(s) => \A fn \in Fns :
-          Agg(fn, Transposed(s, hw[1], hw[2])) = Agg(fn, s)
+     LET M == Matrix(s, hw[1], hw[2])  t == Transposed(s, hw[1], hw[2])
+     IN  /\ Flatten(M, hw[1], hw[2]) = s
+         /\ \A i \in 1..Len(s) :                     \* t really is the transpose
+               t[i] = M[((i - 1) % hw[1]) + 1][((i - 1) \div hw[1]) + 1]
+         /\ OneErrKind(s) => \A fn \in Fns : Agg(fn, t) = Agg(fn, s)
 
 \* SUM (and COUNT) are additive over a split of the range into two blocks
 SplitAdditive ==
-  \A k \in 0..Len(s) :
+  \A k \in Cuts(Len(s)) :
      LET a == SubSeq(s, 1, k)  b == SubSeq(s, k + 1, Len(s))
      IN  /\ Same(The(Agg("SUM", s)), Plus(The(Agg("SUM", a)), The(Agg("SUM", b))))
          /\ CountN(s, FALSE) = CountN(a, FALSE) + CountN(b, FALSE)
@@ -219,7 +227,7 @@ SumProductLaw ==
            /\ REq(The(SumProduct(s, Ones(s))), The(Agg("SUM", s)))
            /\ SumProduct(Zeroed(s), Zeroed(t)) = SumProduct(s, t)
            /\ The(SumProduct(s, s))[2] >= 0
-           /\ \A k \in 0..Len(s) :
+           /\ \A k \in Cuts(Len(s)) :
                 REq(The(SumProduct(s, t)),
                     RAdd(The(SumProduct(SubSeq(s, 1, k), SubSeq(t, 1, k))),
                          The(SumProduct(SubSeq(s, k + 1, Len(s)),
